@@ -9,12 +9,13 @@ import (
 // Generators of cases. Every choice comes from the Rng passed in.
 
 type GenParams struct {
-	MaxCap    int  // descriptor capacity is drawn from 0..MaxCap
-	MinOps    int
-	MaxOps    int
-	BigEvery  int  // one object in BigEvery may be large (tens of KiB); 0 = never
-	Backend   string
+	MaxCap        int // descriptor capacity is drawn from 0..MaxCap
+	MinOps        int
+	MaxOps        int
+	BigEvery      int // one object in BigEvery may be large (tens of KiB); 0 = never
+	Backend       string
 	NoDefaultTime bool // never rely on the wall clock (C12 variants)
+	Queries       int  // up to this many read-only queries after each step
 }
 
 var sizePoolSmall = []int{0, 0, 1, 2, 3, 7, 16, 31, 100, 127, 128, 129, 255, 383, 384, 385, 511, 512, 513, 600}
@@ -154,6 +155,7 @@ func genMeta(r *Rng, typ int32, allowPrim bool) (Meta, bool) {
 
 // imgView is the little the generator tracks about the image to aim its operations.
 type imgView struct {
+	objs     []DInput // descriptor inputs of (probably) live objects, parallel to ids
 	ids      []uint32 // probably-live object IDs
 	cap      int
 	ociIDs   []uint32
@@ -228,7 +230,56 @@ func genTOpt(r *Rng, p GenParams) TOpt {
 	return TOpt{Kind: TDefault}
 }
 
+// presentSelector aims a selector at an attribute value of an object believed to be live.
+func presentSelector(r *Rng, v *imgView) (Selector, bool) {
+	if len(v.objs) == 0 {
+		return Selector{}, false
+	}
+	i := r.Intn(len(v.objs))
+	d, id := v.objs[i], v.ids[i]
+	switch r.Intn(8) {
+	case 0:
+		return Selector{Kind: SType, N: int64(d.Type)}, true
+	case 1:
+		return Selector{Kind: SID, N: int64(id)}, true
+	case 2:
+		if g := d.EffGroup(); g != 0 {
+			return Selector{Kind: SGroup, N: int64(g &^ GroupMask)}, true
+		}
+		return Selector{Kind: SNoGroup}, true
+	case 3:
+		switch d.Link {
+		case LObject:
+			return Selector{Kind: SLinkedID, N: int64(d.LinkID &^ GroupMask)}, true
+		case LGroup:
+			return Selector{Kind: SLinkedGroup, N: int64(d.LinkID &^ GroupMask)}, true
+		}
+	case 4:
+		// the same number as object link and as group link
+		if d.Link != LNone {
+			if r.Chance(1, 2) {
+				return Selector{Kind: SLinkedID, N: int64(d.LinkID &^ GroupMask)}, true
+			}
+			return Selector{Kind: SLinkedGroup, N: int64(d.LinkID &^ GroupMask)}, true
+		}
+	case 5:
+		if m := d.EffMd(); m.Kind == MdPart {
+			return Selector{Kind: SPartType, N: int64(m.Pt)}, true
+		}
+	case 6, 7:
+		if d.Type == DataOCIBlob || d.Type == DataOCIRootIndex {
+			return Selector{Kind: SOCIDigest, Alg: "sha256", Hex: Sha256Hex(d.Content)}, true
+		}
+	}
+	return Selector{}, false
+}
+
 func GenSelector(r *Rng, v *imgView) Selector {
+	if r.Chance(1, 2) {
+		if s, ok := presentSelector(r, v); ok {
+			return s
+		}
+	}
 	switch r.Intn(14) {
 	case 0:
 		return Selector{Kind: SType, N: int64(Pick(r, AllDataTypes))}
@@ -333,15 +384,44 @@ func GenHistory(r *Rng, id int, p GenParams) Case {
 		co.DIs = append(co.DIs, d)
 		v.note(d, uint32(i+1))
 	}
+	c.InitQueries = GenQueries(r, v, p.Queries)
 	nOps := p.MinOps + r.Intn(p.MaxOps-p.MinOps+1)
 	for i := 0; i < nOps; i++ {
-		c.Steps = append(c.Steps, Step{Op: GenOp(r, p, v)})
+		op := GenOp(r, p, v)
+		c.Steps = append(c.Steps, Step{Op: op, Queries: GenQueries(r, v, p.Queries)})
 	}
 	return c
 }
 
+// GenQueries draws up to n read-only queries.
+func GenQueries(r *Rng, v *imgView, n int) []Query {
+	var qs []Query
+	k := r.Intn(n + 1)
+	for i := 0; i < k; i++ {
+		switch r.Intn(5) {
+		case 0:
+			qs = append(qs, Query{Kind: "data", ID: v.someID(r)})
+		default:
+			q := Query{Kind: "many"}
+			if r.Chance(2, 5) {
+				q.Kind = "one"
+			}
+			for j, m := 0, r.Intn(4); j < m; j++ {
+				s := GenSelector(r, v)
+				if r.Chance(1, 12) {
+					s = Selector{Kind: SCustom, Custom: CErrOnID, N: int64(v.someID(r))}
+				}
+				q.Sels = append(q.Sels, s)
+			}
+			qs = append(qs, q)
+		}
+	}
+	return qs
+}
+
 func (v *imgView) note(d DInput, id uint32) {
 	v.ids = append(v.ids, id)
+	v.objs = append(v.objs, d)
 	if d.Type == DataOCIBlob || d.Type == DataOCIRootIndex {
 		v.ociIDs = append(v.ociIDs, id)
 		v.digests = append(v.digests, Sha256Hex(d.Content))
@@ -394,6 +474,7 @@ func GenOp(r *Rng, p GenParams, v *imgView) Op {
 			for i, id := range v.ids {
 				if int64(id) == o.Sel.N {
 					v.ids = append(v.ids[:i:i], v.ids[i+1:]...)
+					v.objs = append(v.objs[:i:i], v.objs[i+1:]...)
 					break
 				}
 			}
